@@ -19,6 +19,7 @@ type roRecord struct {
 	loc   string
 	cond  *Term // unguarded only when this param-rooted term is true (nil: always)
 	deref bool  // loc is "*Pk" of the tracked parameter itself: re-classified at the call site
+	shallow bool // the written cell lies inside the object Pk points at (no load in between)
 }
 
 type roKey struct {
@@ -210,8 +211,11 @@ func (ra *roAnalysis) unguarded(fn *ssa.Function, k int) []roRecord {
 		if site.Direct || site.Callee == nil || !c.p.inPkg(site.Callee) {
 			for _, l := range locs {
 				rec := roRecord{chain: []string{relName(fn)}, instr: site.Instr, loc: l, cond: siteCond}
-				if st, ok := site.Instr.(*ssa.Store); ok && k < len(fn.Params) && st.Addr == fn.Params[k] {
-					rec.deref = true
+				if st, ok := site.Instr.(*ssa.Store); ok {
+					if k < len(fn.Params) && st.Addr == fn.Params[k] {
+						rec.deref = true
+					}
+					rec.shallow = shallowAddr(st.Addr)
 				}
 				out = append(out, rec)
 			}
@@ -228,11 +232,26 @@ func (ra *roAnalysis) unguarded(fn *ssa.Function, k int) []roRecord {
 			argTerms = append(argTerms, fa.term(st0, a))
 		}
 		for j, a := range args {
-			if !c.eff.rootsOf(fe, a)[want] {
+			direct := c.eff.rootsOf(fe, a)[want]
+			viaCopy := false
+			if !direct {
+				for _, r := range c.eff.expandFresh(fe, c.eff.rootsOf(fe, a)) {
+					if r == want {
+						viaCopy = true
+					}
+				}
+			}
+			if !direct && !viaCopy {
 				continue
 			}
 			for _, sub := range ra.unguarded(site.Callee, j) {
+				if viaCopy && sub.shallow {
+					continue // the callee only writes the caller's local copy
+				}
 				rec := roRecord{chain: append([]string{relName(fn)}, sub.chain...), instr: sub.instr, loc: sub.loc}
+				if direct && sub.shallow && shallowAddr(a) {
+					rec.shallow = true
+				}
 				if sub.deref {
 					rec.loc = c.eff.classifyAddr(a)
 					if pa, ok := a.(*ssa.Parameter); ok && k < len(fn.Params) && pa == fn.Params[k] {
